@@ -469,10 +469,57 @@ class Verdict:
         return f'Verdict({self.status}, {self.label})'
 
 
+_AT_ONE = {'EXP': math.exp(1.0), 'SIN': math.sin(1.0), 'COS': math.cos(1.0),
+           'PHI': 0.5 * (1 + math.erf(1 / math.sqrt(2)))}
+
+
+def uf_lemmas(terms) -> list:
+    """Sound ground instances of elementary facts about exp/log/sin/cos/Phi/pow for every application that
+    occurs in ``terms`` (the functions are otherwise uninterpreted)."""
+    out = []
+    seen = set()
+    stack = list(terms)
+    while stack:
+        t = stack.pop()
+        k = t.get_id()
+        if k in seen:
+            continue
+        seen.add(k)
+        stack.extend(t.children())
+        if not z3.is_app(t) or t.decl().kind() != z3.Z3_OP_UNINTERPRETED or t.num_args() == 0:
+            continue
+        name = t.decl().name()
+        a = t.arg(0)
+        if name in _AT_ONE:
+            # convention: at the numeral 1 (the value of a true comparison) the function equals the double
+            # that numpy computes there (constant folding of the pure-Python evaluator)
+            out.append(z3.Implies(a == 1, t == RV(str(fractions.Fraction(_AT_ONE[name])))))
+        if name == 'EXP':
+            out += [t > 0, z3.Implies(a == 0, t == 1)]
+        elif name == 'LOG':
+            out += [z3.Implies(a == 1, t == 0)]
+        elif name == 'SIN':
+            out += [z3.Implies(a == 0, t == 0), t <= 1, t >= -1]
+        elif name == 'COS':
+            out += [z3.Implies(a == 0, t == 1), t <= 1, t >= -1]
+        elif name == 'PHI':
+            out += [z3.Implies(a == 0, t == RV(1) / 2), t > 0, t < 1]
+        elif name == 'SQRT':
+            out += [z3.Implies(a >= 0, z3.And(t >= 0, t * t == a))]
+        elif name == 'POW':
+            e = t.arg(1)
+            out += [z3.Implies(e == 0, t == 1), z3.Implies(e == 1, t == a), z3.Implies(a == 1, t == 1),
+                    z3.Implies(e == 2, t == a * a), z3.Implies(e == 3, t == a * a * a),
+                    z3.Implies(z3.And(e == -1, a != 0), t * a == 1),
+                    z3.Implies(z3.And(a == 0, e > 0), t == 0), z3.Implies(a > 0, t > 0)]
+    return out
+
+
 def prove(c: Ctx, claim, label='', timeout_ms=None) -> Verdict:
     """claim (z3 Bool / SymBool) must hold under the path condition."""
     claim = _b(claim)
-    r = c.check(z3.Not(claim), timeout_ms=timeout_ms)
+    lem = uf_lemmas([claim] + list(c.solver.assertions()))
+    r = c.check(z3.Not(claim), *lem, timeout_ms=timeout_ms)
     if r == 'unsat':
         return Verdict('proved', label)
     if r == 'sat':
